@@ -1,0 +1,160 @@
+//! Verification hooks (compiled only with `--cfg egglog_verif`): re-run the in-tree proof
+//! checker on a returned proof against an altered checking program, and build single-point
+//! structural alterations of a proof object. Nothing in the crate calls these.
+use super::proof_format::{Justification, Proof, ProofId, ProofStore, Proposition};
+use crate::{EGraph, TermId};
+
+impl EGraph {
+    /// The commands of the program proofs are checked against, printed.
+    pub fn verif_proof_check_program(&self) -> Vec<String> {
+        self.proof_check_program
+            .iter()
+            .map(|c| c.to_string())
+            .collect()
+    }
+
+    /// Run the in-tree checker on `proof_id` against the checking program with the commands
+    /// at the given indexes removed (empty slice: the original program).
+    pub fn verif_check_proof(
+        &self,
+        store: &mut ProofStore,
+        proof_id: ProofId,
+        drop: &[usize],
+    ) -> Result<(), String> {
+        let program: Vec<_> = self
+            .proof_check_program
+            .iter()
+            .enumerate()
+            .filter(|(i, _)| !drop.contains(i))
+            .map(|(_, c)| c.clone())
+            .collect();
+        store
+            .check_proof(proof_id, &program)
+            .map(|_| ())
+            .map_err(|e| e.to_string())
+    }
+}
+
+/// A single-point alteration of a proof node.
+#[derive(Clone, Debug)]
+pub enum VerifAlteration {
+    /// `Trans(p, q)` becomes `Trans(q, p)`
+    SwapTrans,
+    /// `Congr { child_index }` becomes the given index
+    CongrIndex(usize),
+    /// the n-th premise of a `Rule` step is dropped
+    DropPremise(usize),
+    /// the proposition of a `Fiat` leaf becomes `lhs = term`
+    FiatRhs(TermId),
+}
+
+impl ProofStore {
+    /// All proof nodes reachable from `root` (each once), parents before children.
+    pub fn verif_nodes(&self, root: ProofId) -> Vec<ProofId> {
+        let mut seen = vec![];
+        let mut stack = vec![root];
+        while let Some(p) = stack.pop() {
+            if seen.contains(&p) {
+                continue;
+            }
+            seen.push(p);
+            stack.extend(Self::verif_children(self.get(p)));
+        }
+        seen
+    }
+
+    fn verif_children(p: &Proof) -> Vec<ProofId> {
+        match p.justification() {
+            Justification::Fiat | Justification::Eval => vec![],
+            Justification::Rule { premise_proofs, .. } => premise_proofs.clone(),
+            Justification::MergeFn {
+                old_proof,
+                new_proof,
+                ..
+            } => vec![*old_proof, *new_proof],
+            Justification::Trans(a, b) => vec![*a, *b],
+            Justification::Sym(a) => vec![*a],
+            Justification::Congr {
+                proof, child_proof, ..
+            } => vec![*proof, *child_proof],
+            Justification::ContainerNormalize { proof } => vec![*proof],
+        }
+    }
+
+    /// A copy of the proof rooted at `root` in which node `target` carries the alteration.
+    /// Ancestors of `target` are copied with their stated propositions unchanged; everything
+    /// else is shared. `None` when the alteration does not apply to `target`.
+    pub fn verif_alter(
+        &mut self,
+        root: ProofId,
+        target: ProofId,
+        alt: &VerifAlteration,
+    ) -> Option<ProofId> {
+        let mut node = self.get(target).clone();
+        match (&mut node.justification, alt) {
+            (Justification::Trans(a, b), VerifAlteration::SwapTrans) => std::mem::swap(a, b),
+            (Justification::Congr { child_index, .. }, VerifAlteration::CongrIndex(i)) => {
+                *child_index = *i
+            }
+            (Justification::Rule { premise_proofs, .. }, VerifAlteration::DropPremise(i))
+                if *i < premise_proofs.len() =>
+            {
+                premise_proofs.remove(*i);
+            }
+            (Justification::Fiat, VerifAlteration::FiatRhs(t)) => {
+                node.proposition = Proposition::new(node.proposition.lhs(), *t);
+            }
+            _ => return None,
+        }
+        let replacement = self.id_to_proof.push(node);
+        Some(self.verif_rebuild(root, target, replacement))
+    }
+
+    fn verif_rebuild(&mut self, at: ProofId, target: ProofId, replacement: ProofId) -> ProofId {
+        if at == target {
+            return replacement;
+        }
+        let mut node = self.get(at).clone();
+        let mut changed = false;
+        let mut map = |s: &mut ProofStore, p: &mut ProofId| {
+            let n = s.verif_rebuild(*p, target, replacement);
+            if n != *p {
+                *p = n;
+                changed = true;
+            }
+        };
+        match &mut node.justification {
+            Justification::Fiat | Justification::Eval => {}
+            Justification::Rule { premise_proofs, .. } => {
+                for p in premise_proofs.iter_mut() {
+                    map(self, p);
+                }
+            }
+            Justification::MergeFn {
+                old_proof,
+                new_proof,
+                ..
+            } => {
+                map(self, old_proof);
+                map(self, new_proof);
+            }
+            Justification::Trans(a, b) => {
+                map(self, a);
+                map(self, b);
+            }
+            Justification::Sym(a) => map(self, a),
+            Justification::Congr {
+                proof, child_proof, ..
+            } => {
+                map(self, proof);
+                map(self, child_proof);
+            }
+            Justification::ContainerNormalize { proof } => map(self, proof),
+        }
+        if changed {
+            self.id_to_proof.push(node)
+        } else {
+            at
+        }
+    }
+}
